@@ -174,10 +174,11 @@ class HistoryHarness(Harness):
             scen.generation = [0]
             obs.steps = []
             # the plan is cut at 'newloop' steps: each piece runs as one coroutine on the loop current at that time
-            pieces, cur_piece = [], ["first"]
+            pieces, cur_piece, closes = [], ["first"], []
             for s in self.plan:
-                if s == "newloop":
+                if s in ("newloop", "newloop_keep"):
                     pieces.append(cur_piece)
+                    closes.append(s == "newloop")
                     cur_piece = []
                 else:
                     cur_piece.append(s)
@@ -186,10 +187,12 @@ class HistoryHarness(Harness):
             for pi, piece in enumerate(pieces):
                 if pi > 0:
                     # successive asyncio.run() calls: the previous loop is closed, a new one is used from now on
-                    try:
-                        loops[-1].close()
-                    except BaseException as e:  # noqa: BLE001
-                        obs.steps.append(("loop close raised", type(e).__name__))
+                    # ('newloop_keep': the previous loop stays alive but idle, e.g. one long-lived loop per thread)
+                    if closes[pi - 1]:
+                        try:
+                            loops[-1].close()
+                        except BaseException as e:  # noqa: BLE001
+                            obs.steps.append(("loop close raised", type(e).__name__))
                     loops.append(world.new_loop())
                 try:
                     vworld.run(loops[-1], segment(piece, j0))
@@ -217,7 +220,7 @@ class HistoryHarness(Harness):
             obs.open_after_drain = len(transports())
             del inv
             gc.collect()
-            obs.fds_open_after_drain = len(world.open_sockets()) if "newloop" not in self.plan else None
+            obs.fds_open_after_drain = len(world.open_sockets()) if not any(x.startswith("newloop") for x in self.plan) else None
             obs.t_end = world.now
             obs.small = dict(script.log)
             obs.delivered_reqs = list(getattr(scen, "delivered_reqs", []))
